@@ -11,6 +11,7 @@
 package simrt
 
 import (
+	"strconv"
 	"fmt"
 	"hash/fnv"
 	"math/rand"
@@ -146,7 +147,67 @@ func Reset(c Config) {
 		}
 	}
 	resetNet()
+	resetFnPoints()
 	On = true
+}
+
+// ---- optional function-entry scheduling points -------------------------------------------------
+//
+// simgen puts FnPoint(id) at the entry of every server function.  A run whose schedule sets the
+// knob "fnyield" = k switches on roughly k per mille of them, chosen by a hash of (seed, id) so
+// that the choice is part of the schedule and replays with it; each switched-on function yields
+// on its first fnBudget calls only (a hot function must not eat the step budget).
+
+const maxFn = 1 << 14
+const fnBudget = 6
+
+var fnOn [maxFn]bool
+var fnLeft [maxFn]int32
+
+func fnMix(seed int64, id int) uint64 {
+	x := uint64(seed) ^ (uint64(id)+1)*0x9E3779B97F4A7C15
+	x ^= x >> 30
+	x *= 0xBF58476D1CE4E5B9
+	x ^= x >> 27
+	x *= 0x94D049BB133111EB
+	x ^= x >> 31
+	return x
+}
+
+func resetFnPoints() {
+	k := cfg.Knobs["fnyield"]
+	for i := range fnOn {
+		fnOn[i] = k > 0 && int(fnMix(cfg.Seed, i)%1000) < k
+		fnLeft[i] = fnBudget
+	}
+}
+
+// FnPoint is the function-entry scheduling point.
+//
+//go:norace
+func FnPoint(id int) {
+	if fnOn[id&(maxFn-1)] {
+		fnYield(id)
+	}
+}
+
+//go:norace
+func fnYield(id int) {
+	if !On {
+		return
+	}
+	// only goroutines the scheduler already knows (never the harness or a dispatcher goroutine)
+	p := runtime_getProfLabel()
+	if p == nil || (*G)(p).run != RunSeq.Load() {
+		return
+	}
+	i := id & (maxFn - 1)
+	if fnLeft[i] <= 0 {
+		fnOn[i] = false
+		return
+	}
+	fnLeft[i]--
+	Yield("fn:" + strconv.Itoa(id))
 }
 
 // Stop ends simulation mode (entry points fall through again).
